@@ -21,6 +21,21 @@ Open Scope Z_scope.
 
 (* ------------------------------------------------------------------ generic helpers *)
 Definition bs (s : string) : list Z := map (fun c => Z.of_N (N_of_ascii c)) (list_ascii_of_string s).
+(* byte-string constants (evaluated here so that the extracted code has no Coq strings) *)
+Definition S_datatype_Float32LE : list Z := Eval vm_compute in bs "datatype: Float32LE".
+Definition S_properties : list Z := Eval vm_compute in bs "properties".
+Definition S_Float32LE : list Z := Eval vm_compute in bs "Float32LE".
+Definition S_file_dot : list Z := Eval vm_compute in bs "file: . ".
+Definition S_datatype : list Z := Eval vm_compute in bs "datatype".
+Definition S_scalars : list Z := Eval vm_compute in bs "scalars".
+Definition S_Float32 : list Z := Eval vm_compute in bs "Float32".
+Definition S_count_c : list Z := Eval vm_compute in bs "count: ".
+Definition S_file : list Z := Eval vm_compute in bs "file".
+Definition S_LPS : list Z := Eval vm_compute in bs "LPS".
+Definition S_END : list Z := Eval vm_compute in bs "END".
+Definition S_dotsp : list Z := Eval vm_compute in bs ". ".
+Definition S_BE : list Z := Eval vm_compute in bs "BE".
+Definition S_colonsp_c : list Z := Eval vm_compute in bs ": ".
 
 Fixpoint list_eqb (a b : list Z) : bool :=
   match a, b with
@@ -94,9 +109,9 @@ Definition excluded (k : list Z) : bool :=
   existsb (list_eqb k) tck_exclude || starts_with [95] k.
 
 Definition tck_lines (count : Z) (items : list (list Z * list Z)) : list (list Z) :=
-  (bs "count: " ++ pad10 (dec_str count))
-  :: bs "datatype: Float32LE"
-  :: map (fun kv => fst kv ++ bs ": " ++ snd kv) (filter (fun kv => negb (excluded (fst kv))) items).
+  (S_count_c ++ pad10 (dec_str count))
+  :: S_datatype_Float32LE
+  :: map (fun kv => fst kv ++ S_colonsp_c ++ snd kv) (filter (fun kv => negb (excluded (fst kv))) items).
 
 Definition count_colons (l : list Z) : Z := zlen (filter (fun c => c =? 58) l).
 
@@ -107,7 +122,7 @@ Definition tck_header (count : Z) (items : list (list Z * list Z)) : res (list Z
   if count_colons txt >? zlen lines then Err EColon
   else
     let out := tck_magic ++ 10 :: txt in
-    Ok (out ++ 10 :: bs "file: . " ++ dec_str (tck_hdr_offset (zlen out)) ++ 10 :: bs "END" ++ [10]).
+    Ok (out ++ 10 :: S_file_dot ++ dec_str (tck_hdr_offset (zlen out)) ++ 10 :: S_END ++ [10]).
 
 (* ------------------------------------------------------------------ TCK data writer *)
 Definition triple := (Z * Z * Z)%type.
@@ -234,7 +249,7 @@ Fixpoint tck_lines_loop (fuel : nat) (l : list Z) (key : option (list Z)) (d : h
       match line with
       | [] => tck_lines_loop fuel' rest key d consumed'
       | _ =>
-        if list_eqb line (bs "END") then Ok (d, consumed')
+        if list_eqb line (S_END) then Ok (d, consumed')
         else
           let '(key', val) := match split_colon line with
                               | Some (k, v) => (Some (strip k), v)
@@ -259,18 +274,18 @@ Definition tck_parse_header (f : list Z) : res (bool * Z) :=
     | Ok (d, consumed) =>
       (* f.tell() after the loop; seek(1, SEEK_CUR) past the magic may go past a short file *)
       let offset_data := mlen + 1 + consumed in
-      let datatype := match hd_get (bs "datatype") d with Some v => v | None => bs "Float32LE" end in
-      if negb (starts_with (bs "Float32") datatype) then Err EDatatype
+      let datatype := match hd_get (S_datatype) d with Some v => v | None => S_Float32LE end in
+      if negb (starts_with (S_Float32) datatype) then Err EDatatype
       else
-        let file := match hd_get (bs "file") d with
+        let file := match hd_get (S_file) d with
                     | Some v => v
-                    | None => bs ". " ++ dec_str offset_data
+                    | None => S_dotsp ++ dec_str offset_data
                     end in
         match ws_split file with
         | dot :: off :: _ =>
           if negb (list_eqb dot [46]) then Err EFile
           else match parse_int off with
-               | Some o => Ok (ends_with (bs "BE") datatype, o)
+               | Some o => Ok (ends_with (S_BE) datatype, o)
                | None => Err EFile
                end
         | [dot] => Err EFile       (* '.' alone: IndexError; anything else: HeaderError *)
@@ -399,6 +414,9 @@ Fixpoint all_disj (l : list (Z * Z)) : bool :=
   | [] => true
   | a :: r => forallb (span_disj a) r && all_disj r
   end.
+(* the offsets the imported header dtype has now *)
+Definition trk_offs_now : option trk_offs := Eval vm_compute in offs_of_layout trk_layout.
+
 Definition wf_offs (o : trk_offs) : bool :=
   forallb (fun s => (0 <=? fst s) && (fst s + snd s <=? trk_header_size)) (offs_spans o)
   && all_disj (offs_spans o).
@@ -505,7 +523,7 @@ Definition trk_template (o : trk_offs) (u : trk_user) : list Z :=
   let b3 := set_at (o_vsizes o) (enc_list false 4 (u_vsizes u)) b2 in
   let b4 := set_at (o_origin o) (enc_list false 4 (u_origin u)) b3 in
   let b5 := set_at (o_v2r o) (enc_list false 4 (u_v2r u)) b4 in
-  let ord := match rstrip0 (u_order u) with [] => bs "LPS" | x => x end in
+  let ord := match rstrip0 (u_order u) with [] => S_LPS | x => x end in
   let b6 := set_at (o_order o) (pad_to 4 ord) b5 in
   let b7 := set_at (o_count o) (enc_s false 4 (u_count u)) b6 in
   let b8 := set_at (o_nscal o) (enc_s false 2 (u_nscal u)) b7 in
@@ -580,10 +598,10 @@ Definition trk_parse_header (o : trk_offs) (hb : list Z) : res trk_info :=
       let nscal := dec_s be (get_at (o_nscal o) 2 hb) in
       let nprop := dec_s be (get_at (o_nprop o) 2 hb) in
       let count := dec_s be (get_at (o_count o) 4 hb) in
-      match name_slices nscal (get_at (o_sname o) 200 hb) (bs "scalars") with
+      match name_slices nscal (get_at (o_sname o) 200 hb) (S_scalars) with
       | Err e => Err e
       | Ok ss =>
-        match name_slices nprop (get_at (o_pname o) 200 hb) (bs "properties") with
+        match name_slices nprop (get_at (o_pname o) 200 hb) (S_properties) with
         | Err e => Err e
         | Ok ps => Ok (mkInfo be count nscal nprop ss ps)
         end
